@@ -121,8 +121,13 @@ func sortSpecs(fset *token.FileSet, f *File, specs []Spec) []Spec {
 
 	// Record positions for specs.
 	pos := make([]posSpan, len(specs))
+	startLine := make(map[Spec]int, len(specs)) // line a spec starts on
+	perLine := make(map[int]int, len(specs))    // number of specs starting on a line
 	for i, s := range specs {
 		pos[i] = posSpan{s.Pos(), s.End()}
+		line := lineAt(fset, s.Pos())
+		startLine[s] = line
+		perLine[line]++
 	}
 
 	// Identify comments in this range.
@@ -205,7 +210,10 @@ func sortSpecs(fset *token.FileSet, f *File, specs []Spec) []Spec {
 	for i, s := range specs {
 		if i == len(specs)-1 || !collapse(s, specs[i+1]) {
 			deduped = append(deduped, s)
-		} else {
+		} else if perLine[startLine[s]] == 1 {
+			// The removed spec had a line of its own: drop that line.
+			// (A line shared with another spec, as in `"a"; "a"`, must stay:
+			// merging it would swallow the line that follows the specs.)
 			p := s.Pos()
 			fset.File(p).MergeLine(lineAt(fset, p))
 		}
